@@ -29,6 +29,7 @@ type caseT struct {
 	Shim   string    `json:"shim,omitempty"`
 	Gate   bool      `json:"gate,omitempty"` // shim: refuse everything (EAGAIN) until the peer starts reading
 	Delay  int       `json:"start_delay_ms"` // how long after the last call the peer starts reading
+	Chatty bool      `json:"peer_sends_when_it_starts_reading,omitempty"`
 	Seed   int64     `json:"seed"`
 }
 
@@ -54,6 +55,10 @@ func genCase(r *h.Run, phase string, idx int) caseT {
 	// asynchronous reading (ET and ONESHOT): the reading job re-arms the one-shot event itself, and
 	// writes issued in data callbacks run on its goroutine
 	c.Cfg.Async = c.Cfg.Mode != "LT" && (idx/(6*len(origins)))%2 == 1
+	// the peer sends a byte at the moment it starts draining, while the poller is held by another
+	// connection's handler: the write event arrives together with a read event (not for origin
+	// ondata, whose data callback issues the writes)
+	c.Chatty = c.Origin != "ondata" && phase != "shim" && rng.Intn(3) == 0
 	if rng.Intn(2) == 0 {
 		c.Cfg.SndBuf = 8192
 		c.Cfg.RcvBuf = 8192
@@ -197,6 +202,12 @@ func runCase(r *h.Run, c caseT) {
 	var echo sync.Map // control connection: echo
 	env.OnData = func(cn *nbio.Conn, b []byte) {
 		if _, ok := echo.Load(cn); ok {
+			if len(b) == 1 && b[0] == 0xEE {
+				// the (single) poller is held here for a while: what happens to the subject meanwhile
+				// - its peer sends a byte and starts draining - is reported in one epoll event
+				time.Sleep(30 * time.Millisecond)
+				return
+			}
 			_, _ = cn.Write(append([]byte(nil), b...))
 			return
 		}
@@ -321,6 +332,13 @@ func runCase(r *h.Run, c caseT) {
 		atomic.StoreInt32(&pol.Gate, 0)
 		// the kernel "makes room": in LT the armed interest fires by itself; a
 		// ONESHOT/LT implementation must have armed EPOLLOUT for this to matter
+	}
+	if c.Chatty {
+		// readability and writability of the subject become true while the poller is busy elsewhere
+		_, _ = ctl.Write([]byte{0xEE})
+		time.Sleep(3 * time.Millisecond)
+		_, _ = peer.Write([]byte{7})
+		r.Count("cases_with_a_peer_that_sends_while_it_starts_draining", 1)
 	}
 	var got []byte
 	var gotMu sync.Mutex
